@@ -669,6 +669,7 @@ def transitions(case, lines, meta=None):
         tags.append("delay-never-due-ignored-parallel" if parallel else "delay-never-due")
     nstarted = {}     # c -> number of attempts started so far
     rfc = set()       # requests one of whose attempts failed its readiness poll
+    ends = {}         # c -> [completions + readiness failures, panics, successes] of its attempts
     # construction paths, configuration defaults, handles
     via = cfg.get("via", "builder")
     if via != "builder":
@@ -736,6 +737,7 @@ def transitions(case, lines, meta=None):
                 tags.append("clone-readiness-error")
                 errs[w[1]] = errs.get(w[1], 0) + 1
                 rfc.add(w[1])
+                ends.setdefault(w[1], [0, 0, 0])[0] += 1
             else:
                 waiting[(w[1], int(w[2]))] = t
                 tags.append("clone-never-ready" if w[3] == "never" else "clone-warming")
@@ -763,6 +765,12 @@ def transitions(case, lines, meta=None):
             c = w[1]
             kind = "ok" if w[3] == "ok" else "panic" if w[3] == "panic" else "err"
             tags.append("done-" + kind)
+            e = ends.setdefault(c, [0, 0, 0])
+            e[0] += 1
+            e[1] += kind == "panic"
+            e[2] += kind == "ok"
+            if kind == "panic" and not parallel and c not in resolved:
+                tags.append("done-panic-latency-mode")
             if c in resolved:
                 tags.append("done-after-result")
             if kind == "err":
@@ -797,6 +805,13 @@ def transitions(case, lines, meta=None):
                 tags.append("result-panic")
             else:
                 tags.append("result-other")
+    # latency mode, every attempt the call can start was started and has ended, one of them by a panic, none succeeded:
+    # the call never reports anything (TR.Props.C12.panicked_attempt_wedges_latency_hedge)
+    dropped = set(o.split()[1] for o in case["ops"] if o.split()[:1] == ["drop"] and len(o.split()) > 1)
+    for c, e in ends.items():
+        if (not parallel and nstarted.get(c, 0) == mx and e[0] == mx and e[1] >= 1 and e[2] == 0
+                and c not in resolved and c not in dropped):
+            tags.append("wedged-by-panic-latency-mode")
     return tags
 
 
@@ -836,14 +851,16 @@ SPECS = {
                             "done-ok", "done-err", "done-panic", "done-after-result", "done-tie",
                             "result-ok-primary", "result-ok-hedge", "result-ok-after-error",
                             "result-all_failed-latency", "result-all_failed-parallel", "result-panic",
+                            "done-panic-latency-mode", "wedged-by-panic-latency-mode",
                             "via-shortcut-new", "via-service-new-default-config", "via-builder-default-impl",
                             "max-zero-clamped", "max-not-set", "delay-not-set", "named", "listener-event",
                             "second-service-from-layer", "service-from-layer-clone", "handle-new", "handle-reused",
                             "handle-cloned-after-call", "arrive-after-dropsvc", "accessors-all-failed", "accessors-inner",
                             "refused-readiness-error", "refused-while-calls-in-flight",
                             "clone-readiness-error", "result-all_failed-with-readiness-error", "result-ok-after-readiness-error"],
-        "model_modules": ["TR.Model.Hedge", "TR.Lemmas.Hedge", "TR.Mutants.HedgeEarlyAllFailed"],
-        "lean_files": ["TR.Model.Hedge", "TR.Lemmas.Hedge"],
+        "model_modules": ["TR.Model.Hedge", "TR.Lemmas.Hedge", "TR.Lemmas.HedgeTrace", "TR.Lemmas.HedgeLog",
+                          "TR.Mutants.HedgeEarlyAllFailed"],
+        "lean_files": ["TR.Model.Hedge", "TR.Lemmas.Hedge", "TR.Lemmas.HedgeTrace", "TR.Lemmas.HedgeLog"],
         "sizes": (600, 40000),
         "rule": "seeded random op sequences (arrive/poll/drop/adv/settle) over 1..5 requests, max_hedged_attempts 0..5 as given to the "
                 "builder (0: the documented clamp to 1) or not set at all, construction through HedgeLayer::builder(), "
@@ -869,12 +886,18 @@ SPECS = {
                       "first_success_at_once,success_is_queued,all_failed_only_when_all_failed,no_late_start,no_start_when_finished,"
                       "instants_sound,log_matches_attempts,record_unique,due_hedges_are_started,configured_max_ge_one,clamp_spec,"
                       "original_request_only,new_fires_a_single_hedge,default_config_one_hedge_after_a_second,requests_are_independent,"
-                      "accessors_spec,is_all_attempts_failed_sound,refused_is_inner_error}: "
+                      "accessors_spec,is_all_attempts_failed_sound,refused_is_inner_error} and, over the timestamped event log "
+                      "(TR.Hedge.trace: every event with the instant the driver prints), {trace_is_the_log,trace_instants_nondecreasing,"
+                      "result_line_iff_result,one_result_per_call,one_result_per_caller,inner_error_only_for_refused,done_line_iff_completion,"
+                      "start_instant_is_in_the_log,call_line_is_an_attempt,calls_bounded_log,call_instants_are_the_starts,starts_spaced_log,starts_spaced_marks,"
+                      "first_success_wins_log,all_failed_only_after_all_failed_log,panic_only_when_all_panicked,panic_only_after_all_panicked_log,"
+                      "latency_mode_failure_is_errors_only,panicked_attempt_only_success_resolves,panicked_attempt_wedges_latency_hedge}: "
                       "for every max_hedged_attempts >= 1, every delay function in microseconds (fixed, zero, per-attempt, below the timer's "
                       "millisecond resolution or not, or not representable as a deadline at all: never due), every operation sequence (all poll/advance/cancel orders, any number of concurrent "
                       "requests), every script of latencies and outcomes and every readiness plan of the hedges' fresh clones (ready at once, "
                       "later, never, or answering the readiness poll with an error), in the model "
-                      "of execute_with_hedging; proved by an inductive per-request invariant. Every configuration the crate's entry points "
+                      "of execute_with_hedging; proved by an inductive per-request invariant and a bridge invariant that ties every ghost (result, "
+                      "completion, start instant) to its line of the log. Every configuration the crate's entry points "
                       "can build (builder with any argument incl. 0, defaults, HedgeLayer::new, Hedge::new with the default config) meets the "
                       "hypothesis max >= 1; requests are independent of each other and of the handle they are made on (the service has no "
                       "state); the accessors of HedgeError are specified for every result. The model is tied to the real HedgeLayer by "
